@@ -624,18 +624,26 @@ def coq_code(job, tree_lit):
     return int(m.group(1)) if m else None
 
 
-def check_batch(tag, jobs, results):
-    """all returned trees of all instances -> Coq.  Returns (failures [(job_i, sol_i)], n_trees, seconds)"""
+OK16_DEF = ("fun c : grammar * str * var * cform * tree => let '(g, s, cst, f, t) := c in "
+            "N.eqb (sol_check g s cst f t) 16")
+
+
+def check_batch(tag, jobs, results, ok_def=None, only=None):
+    """all returned trees of all instances (or only the (job_i, sol_i) in `only`) -> Coq.
+    Returns (failures [(job_i, sol_i)], n_trees, seconds)"""
+    ok_def = ok_def or OK_DEF
     from isla.derivation_tree import DerivationTree  # noqa
     shards, smeta = [], []
     cur_defs, cur_cases, cur_meta, cur_size = "", [], [], 0
     k = 0
     for ji, (job, res) in enumerate(zip(jobs, results)):
-        if not res["solutions"]:
+        if not res["solutions"] or (only is not None and not any(x[0] == ji for x in only)):
             continue
         defs = instance_defs(k, job)
         cases = []
         for si, tj in enumerate(res["solutions"]):
+            if only is not None and (ji, si) not in only:
+                continue
             lit = g_tree(tree_from_json(tj))
             cases.append(f"(G{k}, S{k}, C{k}, F{k}, {lit})")
             cur_meta.append((ji, si))
@@ -652,7 +660,7 @@ def check_batch(tag, jobs, results):
         smeta.append(cur_meta)
     if not shards:
         return [], 0, 0.0
-    bad, dt = lib.coq_run_shards(tag, IMPORTS, OK_DEF, shards)
+    bad, dt = lib.coq_run_shards(tag, IMPORTS, ok_def, shards)
     return [smeta[a][b] for a, b in bad], sum(len(m) for m in smeta), dt
 
 
@@ -848,11 +856,26 @@ def run(run):
         by_job.setdefault(ji, []).append(si)
     unknown = []
     known_hits = {}
+    # one more parallel Coq pass over the first failing tree of every failing instance: is the
+    # failure code exactly 16 (only the constraint is violated)?
+    firsts = {(ji, sis[0]) for ji, sis in by_job.items() if (ji, sis[0]) in coq_fail}
+    not16 = set(firsts)
+    if firsts:
+        try:
+            n16, _, _ = check_batch("c01k", jobs, results, ok_def=OK16_DEF, only=firsts)
+            not16 = set(n16)
+        except RuntimeError:
+            pass
     for ji, sis in by_job.items():
         job, res = jobs[ji], results[ji]
         si = sis[0]
         lit = g_tree(tree_from_json(res["solutions"][si]))
-        code = coq_code(job, lit) if (ji, si) in coq_fail else 0
+        if (ji, si) not in coq_fail:
+            code = 0
+        elif (ji, si) not in not16:
+            code = 16
+        else:
+            code = coq_code(job, lit) if len(unknown) < 5 else None
         entry = {"job": job, "solution_index": si, "tree": res["solutions"][si],
                  "string": str(tree_from_json(res["solutions"][si])), "code": code,
                  "failed": [v for b, v in FAIL_BITS.items() if code and code & b],
@@ -915,7 +938,7 @@ def run(run):
                        "obligation": "Props/C01.v"}, found_input=False)
     run.cov["trusted_base"] = lib.TRUSTED_BASE_COMMON + [
         "C01 theorems are about an ABSTRACT transition system (Solver/Rules.v) over-approximating "
-        "ISLaSolver.solve(); premises H_smt, H_sem, H_insert, H_predinst, H_numq are hypotheses of "
+        "ISLaSolver.solve(); premises H_smt, H_sem, H_insert, H_numq, H_infeasible are hypotheses of "
         "solve_sound_partial; the tie to /repo is the runtime verified check of outputs, not a step-by-step "
         "trace conformance",
         "match-expression prefix trees (BindExpression.to_tree_prefix) are inputs of the specification",
